@@ -10,6 +10,7 @@
 //!   @ fop <f32|f64> <op> <abits> <bbits>
 //!   @ fident <f32|f64> <abits>
 //!   @ user <routine> <Fp|Rat> <args…>          (c19_user.rs)
+//!   @ userw <routine> <wrapping_i8|wrapping_u8|wrapping_i16> <matrix>   routines that call `T::from_usize`
 //!   @ trop|trsc|trneg|trpow|recop|recsc|recneg|recpow …   Trace / Record operators (c19_wrap.rs)
 //!
 //! The operators are reached through easy-ml's own trait machinery wherever the type is
@@ -819,6 +820,7 @@ impl Runner {
             ["@", "fop", ty, op, a, b] => fop_line(ty, op, a, b),
             ["@", "fident", ty, a] => fident_line(ty, a),
             ["@", "user", rest @ ..] => user::run(rest),
+            ["@", "userw", rest @ ..] => user::run_wrapping(rest),
             ["@", cmd @ ("trop" | "trsc" | "trneg" | "trpow" | "recop" | "recsc" | "recneg" | "recpow" | "freal" | "trreal" | "recreal"), rest @ ..] => {
                 wrap::run(cmd, rest)
             }
